@@ -141,10 +141,18 @@ func NPMUniverse(o NPMOpts) *rapid.Generator[Universe] {
 			if rapid.IntRange(0, 2).Draw(t, "hastag") == 0 {
 				tagged = rapid.IntRange(0, len(vs)-1).Draw(t, "tagged")
 			}
+			decoy := -1
+			if tagged >= 0 && len(vs) > 1 && rapid.IntRange(0, 2).Draw(t, "hasdecoy") == 0 {
+				decoy = rapid.IntRange(0, len(vs)-1).Draw(t, "decoy")
+			}
 			for j, v := range vs {
 				uv := UVer{Version: v}
 				if j == tagged {
 					uv.Attrs = append(uv.Attrs, "Tags "+rapid.SampledFrom([]string{"latest", "latest,next", "next"}).Draw(t, "tags"))
+				} else if tagged >= 0 && j == decoy {
+					// another version carries tags whose names merely contain a
+					// dist-tag name (npm's own latest-6, next-7; v4-latest)
+					uv.Attrs = append(uv.Attrs, "Tags "+rapid.SampledFrom([]string{"latest-1", "v4-latest", "next-7", "notlatest,beta", "latest-1,next-7"}).Draw(t, "decoytags"))
 				}
 				if rapid.IntRange(0, 6).Draw(t, "blocked") == 0 {
 					uv.Attrs = append(uv.Attrs, "Blocked")
